@@ -49,7 +49,10 @@ class Kemeny(Suite):
             else:
                 base = [e for e in univ if rng.random() < 0.8]  # may lack an element
             c = gen.random_ranking(rng, base, 1.0, rng.choice([1.0, 0.7, 0.4, 0.1]))
-            cases.append({"s": gen.pick_scheme(rng), "D": D, "c": c})
+            case = {"s": gen.pick_scheme(rng), "D": D, "c": c}
+            if rng.random() < 0.25:
+                case["via"] = "consensus"       # the score is read on a Consensus object built over the candidate (several per process)
+            cases.append(case)
         # single-element universes, empty rankings, empty candidate
         cases += [{"s": gen.GENERIC, "D": [[[5]]], "c": [[5]]}, {"s": gen.GENERIC, "D": [[[5]], []], "c": [[5]]},
                   {"s": gen.GENERIC, "D": [[[5]], []], "c": []}, {"s": gen.UNIFYING, "D": [[], [[1, 2]]], "c": [[2], [1], [3]]}]
@@ -60,7 +63,17 @@ class Kemeny(Suite):
         sc = ScoringScheme(case["s"])
         out = {"D": gen.observe(ds), "c": cand_listing(cand)}
         try:
-            v = KemenyComputingFactory(sc).get_kemeny_score(cand, ds)
+            if case.get("via") == "consensus":
+                # the other observation point: a Consensus object built directly over the candidate (no attribute dictionary given),
+                # its score read on demand - and read again
+                from corankco.consensus import Consensus
+                if len(case["c"]) > 1:       # another object of the same kind lived before this one (keeps the replay self-contained)
+                    Consensus([Ranking([set(b) for b in reversed(case["c"])])], ds, sc).kemeny_score
+                co = Consensus([cand], ds, sc)
+                v = co.kemeny_score
+                assert co.kemeny_score == v
+            else:
+                v = KemenyComputingFactory(sc).get_kemeny_score(cand, ds)
             out["score"] = to_units(v)
             out["raw"] = float(v)
         except Exception as e:
@@ -83,6 +96,7 @@ class Kemeny(Suite):
         acc[k] = acc.get(k, 0) + 1
         univ = {e for r in out["D"] for b in r for e in b}
         cs = {e for b in out["c"] for e in b}
+        acc["read_on_a_Consensus_object"] = acc.get("read_on_a_Consensus_object", 0) + int(case.get("via") == "consensus")
         acc["superset_candidate"] = acc.get("superset_candidate", 0) + int(cs > univ)
         acc["incomplete_dataset"] = acc.get("incomplete_dataset", 0) + int(any({e for b in r for e in b} != univ for r in out["D"]))
         s = case["s"]
